@@ -1,10 +1,12 @@
 import XlModel.Grid
+import XlModel.GridPayload
 import XlModel.Ref
 import XlModel.Drv.Util
 /-!
 Line protocol driver for C03. State = (Impl sheet, Spec sheet). One output line per op.
 
   new <nStyles>
+  val <kind[.variant]> <cell> <raw input>   typed write: the model computes the stored tokens (GridPayload)
   set <setter> <cell> <kind> <a> <b>        setter: int uint bool float str dflt rich ; kind: tv num inl clr
   time <cell> <kind> <a> <b> <style|~>      SetCellValue(time.Time): value at the anchor, style at the raw cell
   frm <cell> <formula|~>
@@ -79,6 +81,23 @@ def decodeRange (h1 h2 : String) : Option (Except Unit (Nat × Nat × Nat × Nat
       if c1 < 1 ∨ r1 < 1 ∨ c2 < 1 ∨ r2 < 1 then some (.error ()) else some (.ok (c1.toNat, r1.toNat, c2.toNat, r2.toNat))
     | .error _ => some (.error ())
   | _, _ => none
+
+/-- raw input of a typed write: `int <decimal>`, `uint <decimal>`, `bool 0|1`, `nil ~`,
+`str <hex of the UTF-8 text | ->` -/
+def parseValue (kind arg : String) : Option Value :=
+  match (kind.splitOn ".").head? with
+  | some "int" => arg.toInt?.map Value.int
+  | some "uint" => arg.toNat?.map Value.uint
+  | some "bool" => if arg = "1" then some (.bool true) else if arg = "0" then some (.bool false) else none
+  | some "nil" => some .nil
+  | some "str" =>
+    match unhexS arg with
+    | some bs =>
+      match String.fromUTF8? (ByteArray.mk (bs.map fun c => c.toNat.toUInt8).toArray) with
+      | some str => some (.str str.toList)
+      | none => none
+    | none => none
+  | _ => none
 
 def parsePayload (kind a b : String) : Option Payload :=
   match kind with
@@ -155,6 +174,11 @@ def stepLine (st : St) (w : List String) : St × String :=
   | ["new", n] => match n.toNat? with
     | some n => let st' : St := { impl := { nStyles := n }, spec := Spec.init n }; out st' .ok
     | none => (st, "bad-op")
+  | ["val", k, h, arg] =>
+    match parseValue k arg, decode h with
+    | some v, some (.ok (c, r), _) => let (st', res) := apply st (v.op c r); out st' res
+    | some _, some (.error _, _) => out st .err
+    | _, _ => (st, "bad-op")
   | ["set", s, h, k, a, b] =>
     match parseSetter s, decode h, parsePayload k a b with
     | some s, some (.ok (c, r), _), some p => let (st', res) := apply st (.set s c r p); out st' res
@@ -215,7 +239,14 @@ def stepLine (st : St) (w : List String) : St × String :=
     | some (.ok (c1, r1, c2, r2)) => let (st', res) := apply st (.unmerge c1 r1 c2 r2); out st' res
     | some (.error _) => out st .err
     | none => (st, "bad-op")
-  | ["gm"] => let (st', res) := apply st .getMerges; out st' res
+  | ["gm"] =>
+    -- whenever the history of merges is hazard-free the one-pass code must produce the normal form of `normSpec`
+    let pre := st.impl.merges.map (·.rect)
+    let (st', res) := apply st .getMerges
+    let (st'', line) := out st' res
+    match normSpec pre with
+    | some l => (st'', if st'.impl.merges.map (·.rect) == l ∧ st'.impl.merges.map (·.ref) == l then line else line ++ " NORMDIFF")
+    | none => (st'', line)
   | "seq" :: dir :: h :: n :: rest =>
     match decode h, n.toNat? with
     | some (.ok (c, r), _), some n =>
